@@ -30,9 +30,17 @@
                                  1 opens, takes `budget` bytes and stalls (write timeout),
                                  2 opens, takes `budget` bytes and fails, 3 fails to open
         7 p mode budget          the same change on the established outbound substream
+        8 p / 9 p / 10 p / 11 p  connection closed / established / its command channel dies /
+                                 DialFailure for the peer
+        12 p tag                 what the transport manager will answer to dial(p): 0 no address,
+                                 1 accepted, 2 already connected, 3 dial in progress
       trace:  4 nops { <events> <complete messages written> partial_bytes }*nops
    5  presence batching through the hooked functions:  5 max_message n { cidspec presence }*n
-      trace:  5 k { <ids> message_len <decoded: <cid bytes> type> }*k *)
+      trace:  5 k { <ids> message_len <decoded: <cid bytes> type> }*k
+   6  request batching through the hooked functions (the loop of send_request):
+                  6 max_message n { cidspec wantType }*n
+      trace:  6 k { <ids> message_len <decoded entries: <cid bytes> priority cancel wantType
+                    sendDontHave> full }*k *)
 From Coq Require Import List NArith Bool.
 From V.common Require Import Wire.
 From V.gen Require Consts.
@@ -124,7 +132,12 @@ Inductive nop :=
 | NSend (p : N) (a : action)
 | NOutOpen (p : N) (c : carrier)
 | NOutFail (p : N)
-| NOutSet (p : N) (c : carrier).
+| NOutSet (p : N) (c : carrier)
+| NConnClose (p : N)
+| NConnect (p : N)
+| NKill (p : N)
+| NDialFail (p : N)
+| NForce (p : N) (tag : N).
 
 Definition p_peer : parser N := let* p := pN in if p <? NPEERS then pret p else pfail.
 
@@ -169,6 +182,11 @@ Definition p_nop : parser (nop * list oentry) :=
          pret (match c with Some c => NOutOpen p c | None => NOutFail p end, [])
   | 7 => let* p := p_peer in let* c := p_carrier in
          match c with Some c => pret (NOutSet p c, []) | None => pfail end
+  | 8 => let* p := p_peer in pret (NConnClose p, [])
+  | 9 => let* p := p_peer in pret (NConnect p, [])
+  | 10 => let* p := p_peer in pret (NKill p, [])
+  | 11 => let* p := p_peer in pret (NDialFail p, [])
+  | 12 => let* p := p_peer in let* tag := pN in if tag <=? 3 then pret (NForce p tag, []) else pfail
   | _ => pfail
   end.
 
@@ -184,7 +202,8 @@ Inductive case :=
 | CSend (mb mm : N) (l : list sblock)
 | CE2E (l : list sblock)
 | CNode (ops : list nop) (tab : list oentry)
-| CPres (mm : N) (l : list spres).
+| CPres (mm : N) (l : list spres)
+| CWant (mm : N) (l : list (N * (cid * want_type))).
 
 Definition decode_case (l : list N) : option case :=
   pall (let* kind := pN in
@@ -195,6 +214,7 @@ Definition decode_case (l : list N) : option case :=
         | 3 => let* bs := plist p_sblock in pret (CE2E (map mk_sblock (number 0 bs)))
         | 4 => let* ops := plist p_nop in pret (CNode (map fst ops) (flat_map snd ops))
         | 5 => let* mm := pN in let* ps := plist p_spres in pret (CPres mm (map mk_spres (number 0 ps)))
+        | 6 => let* mm := pN in let* ws := plist p_want in pret (CWant mm (number 0 ws))
         | _ => pfail
         end) l.
 
@@ -215,11 +235,11 @@ Definition run_recv (bs : list rblock) : list N :=
 
 Definition enc_batch (b : list sblock) : list N :=
   enc_list (fun x => [sb_id x]) b ++
-  [match b with [] => 0 | _ => message_len sblock sb_elen b end] ++
+  [match b with [] => 0 | _ => message_len sblock sb_elen blk_mlen b end] ++
   enc_list (fun x => enc_list (fun y => [y]) (sb_prefix x) ++ [sb_dlen x; 1]) b.
 
 Definition run_send (mb mm : N) (l : list sblock) : list N :=
-  enc_list enc_batch (all_batches sblock sb_dlen sb_elen mb mm l).
+  enc_list enc_batch (all_batches sblock sb_dlen sb_elen blk_mlen mb mm l).
 
 (* end to end: every message that send_response writes becomes one Response event at the
    receiver (whose block_to_response accepts the honest blocks) *)
@@ -261,60 +281,56 @@ Definition enc_omsg (m : omsg) : list N :=
       enc_list (fun x => [sb_id x] ++ enc_bytes (sb_prefix x) ++ [sb_dlen x; 1]) l
   end.
 
-Definition get_ps (st : list pstate) (p : N) : pstate := nth (N.to_nat p) st ps_init.
-Fixpoint set_ps (st : list pstate) (p : nat) (s : pstate) : list pstate :=
-  match st, p with
-  | [], _ => []
-  | _ :: t, O => s :: t
-  | h :: t, S q => h :: set_ps t q s
-  end.
-
-Definition node_step (tab : list oentry) (st : list pstate) (o : nop)
-  : list pstate * (list N (* events, encoded *) * written) :=
+(* a case operation is an event of one peer of the model's node *)
+Definition nop_pev (o : nop) : N * pev payload :=
   match o with
-  | NInOpen p =>
-      let s := get_ps st p in
-      (set_ps st (N.to_nat p) (mkPS true (ps_out s) (ps_pend s) (ps_opening s)), ([0], ([], 0)))
-  | NInFrame p m =>
-      let s := get_ps st p in
-      if ps_inb s
-      then (st, (enc_list (enc_event p) (msg_events payload (digest_of tab) m), ([], 0)))
-      else (st, ([0], ([], 0)))
-  | NInBad p =>
-      let s := get_ps st p in
-      (set_ps st (N.to_nat p) (mkPS false (ps_out s) (ps_pend s) (ps_opening s)), ([0], ([], 0)))
-  | NSend p a =>
-      let '(s', w) := send_action MB MM (get_ps st p) a in
-      (set_ps st (N.to_nat p) s', ([0], w))
-  | NOutOpen p c =>
-      let '(s', w) := outbound_opened MB MM (get_ps st p) c in
-      (set_ps st (N.to_nat p) s', ([0], w))
-  | NOutFail p =>
-      (set_ps st (N.to_nat p) (outbound_failed (get_ps st p)), ([0], ([], 0)))
-  | NOutSet p c =>
-      let s := get_ps st p in
-      (set_ps st (N.to_nat p)
-         (mkPS (ps_inb s) (match ps_out s with Some _ => Some c | None => None end) (ps_pend s) (ps_opening s)),
-       ([0], ([], 0)))
+  | NInOpen p => (p, PInOpen)
+  | NInFrame p m => (p, PInFrame m)
+  | NInBad p => (p, PInBad)
+  | NSend p a => (p, PSend a)
+  | NOutOpen p c => (p, POutOpen c)
+  | NOutFail p => (p, POutFail)
+  | NOutSet p c => (p, POutSet c)
+  | NConnClose p => (p, PConnClose)
+  | NConnect p => (p, PConnect)
+  | NKill p => (p, PKill)
+  | NDialFail p => (p, PDialFail)
+  | NForce p tag => (p, PForce tag)
   end.
 
 Fixpoint run_node (tab : list oentry) (st : list pstate) (ops : list nop) : list N :=
   match ops with
   | [] => []
   | o :: t =>
-      let '(st', (evs, (done, part))) := node_step tab st o in
-      evs ++ enc_list enc_omsg done ++ [part] ++ run_node tab st' t
+      let '(st', (evs, (done, part))) := node_step payload (digest_of tab) MB MM st (nop_pev o) in
+      enc_list (enc_event (fst (nop_pev o))) evs ++ enc_list enc_omsg done ++ [part] ++ run_node tab st' t
   end.
 
 (* ---- kind 5: presence batching ---- *)
 
 Definition enc_pbatch (b : list spres) : list N :=
   enc_list (fun x => [sp_id x]) b ++
-  [match b with [] => 0 | _ => message_len spres sp_elen b end] ++
+  [match b with [] => 0 | _ => message_len spres sp_elen blk_mlen b end] ++
   enc_list (fun x => enc_bytes (cid_to_bytes (sp_cid x)) ++ [presence_code (sp_type x)]) b.
 
 Definition run_pres (mm : N) (l : list spres) : list N :=
-  enc_list enc_pbatch (all_batches spres (fun _ => 0) sp_elen 0 mm l).
+  enc_list enc_pbatch (all_batches spres (fun _ => 0) sp_elen blk_mlen 0 mm l).
+
+(* ---- kind 6: request batching ---- *)
+
+Definition iw_elen (x : N * (cid * want_type)) : N := sw_elen (snd x).
+
+Definition enc_want_entry (x : N * (cid * want_type)) : list N :=
+  enc_bytes (cid_to_bytes (fst (snd x))) ++ [1; 0; want_code (snd (snd x)); 0].
+
+Definition enc_wbatch (b : list (N * (cid * want_type))) : list N :=
+  enc_list (fun x => [fst x]) b ++
+  [message_len (N * (cid * want_type)) iw_elen req_mlen b] ++
+  enc_list enc_want_entry b ++ [0].
+
+Definition run_wants (mm : N) (l : list (N * (cid * want_type))) : list N :=
+  enc_list enc_wbatch
+    (request_rounds (N * (cid * want_type)) (fun _ => 0) iw_elen req_mlen 0 mm (S (length l)) l).
 
 Definition run_case (l : list N) : list N :=
   match decode_case l with
@@ -324,6 +340,7 @@ Definition run_case (l : list N) : list N :=
   | Some (CNode ops tab) =>
       4 :: N.of_nat (length ops) :: run_node tab [ps_init; ps_init; ps_init] ops
   | Some (CPres mm l) => 5 :: run_pres mm l
+  | Some (CWant mm l) => 6 :: run_wants mm l
   | None => [0]
   end.
 
@@ -424,7 +441,7 @@ Definition batch_ok (mb mm : N) (l : list sblock) (b : obatch) : bool :=
   entries_ok l (ob_ids b) (ob_entries b).
 
 Definition fit_ids (mb mm : N) (l : list sblock) : list N :=
-  map sb_id (filter (fits sblock sb_dlen sb_elen mb mm) l).
+  map sb_id (filter (fits sblock sb_dlen sb_elen blk_mlen mb mm) l).
 
 (* ---- kinds 4 and 5: decoding traces and judging them ---- *)
 
@@ -540,7 +557,7 @@ Fixpoint set_nth_b (l : list bool) (p : nat) (b : bool) : list bool :=
    the ops alone.  Events may only come from complete decodable frames on an open substream and
    must be the ones the frame denotes, with every block certified; everything written must be
    a well-formed message within the limits. *)
-Fixpoint node_ok (tab : list oentry) (inb : list bool) (ops : list nop)
+Fixpoint node_ok (tab : list oentry) (con inb : list bool) (ops : list nop)
          (outs : list (list (N * event payload) * list wmsg * N)) : bool :=
   match ops, outs with
   | [], [] => true
@@ -549,22 +566,29 @@ Fixpoint node_ok (tab : list oentry) (inb : list bool) (ops : list nop)
       match o with
       | NInOpen p =>
           match evs, ws with [], [] => (part =? 0) | _, _ => false end &&
-          node_ok tab (set_nth_b inb (N.to_nat p) true) ops' outs'
+          node_ok tab con (if nth (N.to_nat p) con false then set_nth_b inb (N.to_nat p) true else inb) ops' outs'
       | NInBad p =>
           (* no partial delivery *)
           match evs, ws with [], [] => (part =? 0) | _, _ => false end &&
-          node_ok tab (set_nth_b inb (N.to_nat p) false) ops' outs'
+          node_ok tab con (set_nth_b inb (N.to_nat p) false) ops' outs'
       | NInFrame p m =>
           match ws with [] => (part =? 0) | _ => false end &&
           (if nth (N.to_nat p) inb false
            then forallb (fun pe : N * event payload => (fst pe =? p) && event_certified tab m (snd pe)) evs &&
                 list_eqb event_eqb (map snd evs) (msg_events payload (digest_of tab) m)
            else match evs with [] => true | _ => false end) &&
-          node_ok tab inb ops' outs'
+          node_ok tab con inb ops' outs'
       | NSend _ _ | NOutOpen _ _ =>
-          match evs with [] => true | _ => false end && node_ok tab inb ops' outs'
-      | NOutFail _ | NOutSet _ _ =>
-          match evs, ws with [], [] => (part =? 0) | _, _ => false end && node_ok tab inb ops' outs'
+          match evs with [] => true | _ => false end && node_ok tab con inb ops' outs'
+      | NConnClose p =>
+          match evs, ws with [], [] => (part =? 0) | _, _ => false end &&
+          node_ok tab (set_nth_b con (N.to_nat p) false) (set_nth_b inb (N.to_nat p) false) ops' outs'
+      | NOutFail _ | NOutSet _ _ | NKill _ | NDialFail _ | NForce _ _ =>
+          match evs, ws with [], [] => (part =? 0) | _, _ => false end && node_ok tab con inb ops' outs'
+      | NConnect p =>
+          (* a connection may release queued actions *)
+          match evs with [] => true | _ => false end &&
+          node_ok tab (set_nth_b con (N.to_nat p) true) inb ops' outs'
       end
   | _, _ => false
   end.
@@ -593,6 +617,32 @@ Fixpoint pentries_ok (l : list spres) (ids : list N) (es : list (list N * N)) : 
 Definition pbatch_ok (mm : N) (l : list spres) (b : opbatch) : bool :=
   negb (match opb_ids b with [] => true | _ => false end) &&
   (1 <=? opb_len b) && (opb_len b <=? mm) && pentries_ok l (opb_ids b) (opb_entries b).
+
+Record owbatch := mkOWB { owb_ids : list N; owb_len : N; owb_entries : list wl_entry; owb_full : N }.
+
+Definition p_owbatch : parser owbatch :=
+  let* ids := plist pN in let* len := pN in let* es := plist p_wl_entry in let* full := pN in
+  pret (mkOWB ids len es full).
+
+Fixpoint wentries_ok (l : list (N * (cid * want_type))) (ids : list N) (es : list wl_entry) : bool :=
+  match ids, es with
+  | [], [] => true
+  | i :: ids', e :: es' =>
+      match nth_error l (N.to_nat i) with
+      | None => false
+      | Some x =>
+          opt_eqb cid_eqb (cid_read_bytes (we_block e)) (Some (fst (snd x))) &&
+          (we_wanttype e =? want_code (snd (snd x))) && (we_priority e =? 1) &&
+          negb (we_cancel e) && negb (we_senddonthave e)
+      end && wentries_ok l ids' es'
+  | _, _ => false
+  end.
+
+(* a request message: within the limit when it carries wants, never marked `full`, and it
+   decodes to exactly the wants of the batch, in order *)
+Definition wbatch_ok (mm : N) (l : list (N * (cid * want_type))) (b : owbatch) : bool :=
+  (match owb_ids b with [] => true | _ => (1 <=? owb_len b) && (owb_len b <=? mm) end) &&
+  (owb_full b =? 0) && wentries_ok l (owb_ids b) (owb_entries b).
 
 Definition prop_ok (case trace : list N) : bool :=
   match decode_case case, trace with
@@ -627,15 +677,23 @@ Definition prop_ok (case trace : list N) : bool :=
       end
   | Some (CNode ops tab), 4 :: n :: body =>
       match pall (prep (length ops) p_opout) body with
-      | Some outs => (n =? N.of_nat (length ops)) && node_ok tab [false; false; false] ops outs
+      | Some outs => (n =? N.of_nat (length ops)) && node_ok tab [true; true; true] [false; false; false] ops outs
       | None => false
       end
   | Some (CPres mm l), 5 :: body =>
       match pall (plist p_opbatch) body with
       | Some obs =>
           nlist_eqb (concat (map opb_ids obs))
-                    (map sp_id (filter (fits spres (fun _ => 0) sp_elen 0 mm) l)) &&
+                    (map sp_id (filter (fits spres (fun _ => 0) sp_elen blk_mlen 0 mm) l)) &&
           forallb (pbatch_ok mm l) obs
+      | None => false
+      end
+  | Some (CWant mm l), 6 :: body =>
+      match pall (plist p_owbatch) body with
+      | Some obs =>
+          nlist_eqb (concat (map owb_ids obs))
+                    (map fst (filter (fits (N * (cid * want_type)) (fun _ => 0) iw_elen req_mlen 0 mm) l)) &&
+          forallb (wbatch_ok mm l) obs
       | None => false
       end
   | None, [0] => true
